@@ -281,11 +281,14 @@ def export_teeth(ck):
 
 # ================================================================================================ inline images
 INLINE_CONFIGS = {
-    # (label, Alphabet, MaxLen, BufSizes, DictKinds, Styles, Followers, Cuts, FastDict)
-    "quick": [("matcher", "Alpha6", 3, "{1, 2, 3, 7}", "KindsPlain", "StylesBoth", "FollTwo", "CutsNone", "TRUE"),
-              ("dict-and-cuts", "AlphaSmall", 1, "{1, 3}", "KindsAll", "StylesBoth", "FollAll", "CutsAll", "FALSE")],
-    "thorough": [("matcher", "Alpha6", 5, "{1, 2, 3, 7}", "KindsPlain", "StylesBoth", "FollTwo", "CutsNone", "TRUE"),
-                 ("dict-and-cuts", "Alpha6", 2, "{1, 2, 3, 5}", "KindsAll", "StylesBoth", "FollAll", "CutsAll", "FALSE")],
+    # (label, Alphabet, MaxLen, BufSizes, DictKinds, Styles, Followers, Cuts, FastDict, Leads)
+    "quick": [("matcher", "Alpha6", 3, "{1, 2, 3, 7}", "KindsPlain", "StylesBoth", "FollTwo", "CutsNone", "TRUE", "NoLead"),
+              ("dict-and-cuts", "AlphaSmall", 1, "{1, 3}", "KindsAll", "StylesBoth", "FollAll", "CutsAll", "FALSE", "NoLead"),
+              # the inline image in the 2nd / 3rd stream of a /Contents array, text after it
+              ("later-streams", "AlphaSmall", 1, "{1, 3, 4096}", "KindsTwo", "StylesBoth", "FollAll", "CutsFew", "TRUE", "LeadsAll")],
+    "thorough": [("matcher", "Alpha6", 5, "{1, 2, 3, 7}", "KindsPlain", "StylesBoth", "FollTwo", "CutsNone", "TRUE", "NoLead"),
+                 ("dict-and-cuts", "Alpha6", 2, "{1, 2, 3, 5}", "KindsAll", "StylesBoth", "FollAll", "CutsAll", "FALSE", "NoLead"),
+                 ("later-streams", "Alpha6", 2, "{1, 3, 7, 4096}", "KindsAll", "StylesBoth", "FollAll", "CutsAll", "TRUE", "LeadsAll")],
 }
 SPACES = b"\t\n\x0b\x0c\r "
 
@@ -399,19 +402,20 @@ def replay_inline(ck, recs, dev, label):
     ideal = recs[""]
     coded = recs.get(dkey(dev), ideal)
     content = bytes(ideal["content"])
-    B, cp = ideal["B"], ideal["cutpos"]
-    rp = {"content": content, "bufsiz": B, "cutpos": cp, "data": bytes(ideal["data"]), "origin": label}
-    err, out = R.scan_content(R.split_content(content, cp), B)
+    B, cp, lead = ideal["B"], ideal["cutpos"], list(ideal["lead"])
+    rp = {"content": content, "bufsiz": B, "cutpos": cp, "lead": lead, "data": bytes(ideal["data"]), "origin": label}
+    err, out = R.scan_content(R.lead_streams(lead) + R.split_content(content, cp), B)
     real = real_view(err, out)
-    what = "inline image data %r written as %r (BUFSIZ=%d%s)" % (bytes(ideal["data"]), content[content.index(b" ID ") + 4:], B,
-                                                                    ", second stream from offset %d" % cp if cp else "")
+    what = "inline image data %r written as %r (BUFSIZ=%d%s%s)" % (bytes(ideal["data"]), content[content.index(b" ID ") + 4:], B,
+                                                                      ", next stream from offset %d" % cp if cp else "",
+                                                                      ", after streams of %s bytes" % lead if lead else "")
     # validate the transcription used for blame against TLC (both designs)
     for dv, r in ((set(), ideal), (set(dev), coded)):
         ph, img = py_model(r, dv)
         if (ph, img) != (r["phase"], bytes(r["img"])):
             raise MachineryError("matcher transcription disagrees with TLC on %r dev=%s: %r vs %r" % (content, sorted(dv), (ph, img), (r["phase"], bytes(r["img"]))))
     indom = ideal["indomain"]
-    ck.case(1, (content, B, cp) if indom and len(ideal["data"]) > 0 else None)
+    ck.case(1, (content, B, cp, tuple(lead)) if indom and (len(ideal["data"]) > 0 or lead) else None)
     if indom:
         eff = ck.extra.setdefault("inline_cases_changed_by_deviation", {})
         for d in dev:
@@ -441,16 +445,17 @@ def replay_inline(ck, recs, dev, label):
 
 def direction_a_inline(ck, dev):
     doc_cases = []
-    for (label, alpha, maxlen, bufs, kinds, styles, foll, cuts, fast) in INLINE_CONFIGS[ck.tier]:
+    for (label, alpha, maxlen, bufs, kinds, styles, foll, cuts, fast, leads) in INLINE_CONFIGS[ck.tier]:
         mod = "RunI_" + label.replace("-", "_")
         wrapper = os.path.join(ck.tmp, mod + ".tla")
         with open(wrapper, "w") as f:
-            f.write("---- MODULE %s ----\nEXTENDS MC_InlineScan\nTheDevs == {{}%s}\nAlphaSmall == {69, 10, 13}\n====\n"
+            f.write("---- MODULE %s ----\nEXTENDS MC_InlineScan\nTheDevs == {{}%s}\nAlphaSmall == {69, 10, 13}\nKindsTwo == {\"none\", \"A85\"}\n"
+                    "CutsFew == {\"none\", \"afterIDws\", \"afterEIws\"}\n====\n"
                     % (mod, (", " + tla_set(dev)) if dev else ""))
         cfg = write_cfg(os.path.join(ck.tmp, mod + ".cfg"),
                         constants={"Alphabet": "<- " + alpha, "MaxLen": maxlen, "BufSizes": bufs, "DictKinds": "<- " + kinds,
                                    "Styles": "<- " + styles, "Followers": "<- " + foll, "Cuts": "<- " + cuts, "DevChoices": "<- TheDevs",
-                                   "FastDict": fast},
+                                   "FastDict": fast, "Leads": "<- " + leads},
                         invariants=["DataCapturedExactly", "FollowersUnaffected", "MatcherIsFirstMarker", "BufferInOneStream",
                                     "IndexInRange", "AccIsContiguous", "DictWellFormed"], constraints=["EmitTerminal"])
         emit = os.path.join(ck.tmp, mod + ".ndjson")
@@ -466,7 +471,7 @@ def direction_a_inline(ck, dev):
         for line in open(emit):
             rec = json.loads(line)
             n += 1
-            groups.setdefault((bytes(rec["content"]), rec["B"], rec["cutpos"]), {})[dkey(rec["dev"])] = rec
+            groups.setdefault((bytes(rec["content"]), rec["B"], rec["cutpos"], tuple(rec["lead"])), {})[dkey(rec["dev"])] = rec
         os.remove(emit)
         if n != res.emitted or n == 0:
             raise MachineryError("emitted %d terminal states but read %d" % (res.emitted, n))
@@ -475,7 +480,7 @@ def direction_a_inline(ck, dev):
                 raise MachineryError("no intended-design record for %r" % (key,))
             replay_inline(ck, recs, dev, label)
             ck.replayed += 1
-            if recs[""]["indomain"] and recs[""]["B"] in (1, 3):
+            if recs[""]["indomain"] and (recs[""]["B"] in (1, 3) or recs[""]["lead"]):
                 doc_cases.append(recs)
             ck.extra.setdefault("inline_cases_replayed", {})[label] = gi + 1
             if gi % 4999 == 0:
@@ -493,7 +498,11 @@ def inline_documents(ck, dev, doc_cases):
     rng = random.Random(ck.seed)
     limit = 400 if ck.tier == "quick" else 4000
     if len(doc_cases) > limit:
-        doc_cases = rng.sample(doc_cases, limit)
+        # half of the sample from the cases with preceding streams
+        later = [r for r in doc_cases if r[""]["lead"]]
+        first = [r for r in doc_cases if not r[""]["lead"]]
+        later = rng.sample(later, min(len(later), limit // 2))
+        doc_cases = later + rng.sample(first, min(len(first), limit - len(later)))
     byB = {}
     for recs in doc_cases:
         byB.setdefault(recs[""]["B"], []).append(recs)
@@ -501,7 +510,7 @@ def inline_documents(ck, dev, doc_cases):
     for B, lst in sorted(byB.items()):
         for i in range(0, len(lst), 60):
             chunk = lst[i:i + 60]
-            pdf = R.inline_doc([(bytes(r[""]["content"]), r[""]["cutpos"]) for r in chunk])
+            pdf = R.inline_doc([(bytes(r[""]["content"]), r[""]["cutpos"], r[""]["lead"]) for r in chunk])
             pages = R.inline_pages(pdf, B)
             ndoc += 1
             if len(pages) != len(chunk):
@@ -509,13 +518,13 @@ def inline_documents(ck, dev, doc_cases):
             for recs, (imgs, text) in zip(chunk, pages):
                 ideal = recs[""]
                 coded = recs.get(dkey(dev), ideal)
-                ck.case(1, ("doc", bytes(ideal["content"]), B, ideal["cutpos"]))
+                ck.case(1, ("doc", bytes(ideal["content"]), B, ideal["cutpos"], tuple(ideal["lead"])))
                 want = expected_capture(ideal)
                 good = (len(imgs) == 1 and norm_capture(ideal, imgs[0][0]) == want and imgs[0][1] == (1, 1) and imgs[0][2] == 8
                         and "Z" in text)
                 if good:
                     continue
-                rp = {"content": bytes(ideal["content"]), "bufsiz": B, "cutpos": ideal["cutpos"], "level": "document"}
+                rp = {"content": bytes(ideal["content"]), "bufsiz": B, "cutpos": ideal["cutpos"], "lead": list(ideal["lead"]), "level": "document"}
                 as_coded_lost = coded["phase"] != "done" or norm_capture(coded, bytes(coded["img"])) != want
                 if as_coded_lost and dev:
                     blame = [d for d in dev if py_model(ideal, {d}) != py_model(ideal, set())]
@@ -530,14 +539,15 @@ def inline_documents(ck, dev, doc_cases):
 def inline_teeth(ck):
     found = {}
     for d, cuts in (("NoRestart", "CutsNone"), ("DollarNewline", "CutsNone"), ("CRLFUnit", "CutsNone"), ("EOFNotDelim", "CutsNone"),
-                    ("SeekOtherStream", "CutsAll")):
+                    ("SeekOtherStream", "CutsAll"), ("CumulativeBufpos", "CutsNone")):
         mod = "TeethI_%s" % d
         wrapper = os.path.join(ck.tmp, mod + ".tla")
         with open(wrapper, "w") as f:
             f.write('---- MODULE %s ----\nEXTENDS MC_InlineScan\nTheDevs == {{"%s"}}\n====\n' % (mod, d))
         cfg = write_cfg(os.path.join(ck.tmp, mod + ".cfg"),
                         constants={"Alphabet": "<- Alpha6", "MaxLen": 2, "BufSizes": "{2}", "DictKinds": "<- KindsPlain", "Styles": "<- StylesBoth",
-                                   "Followers": "<- FollTwo", "Cuts": "<- " + cuts, "DevChoices": "<- TheDevs", "FastDict": "TRUE"},
+                                   "Followers": "<- FollTwo", "Cuts": "<- " + cuts, "DevChoices": "<- TheDevs", "FastDict": "TRUE",
+                                   "Leads": "<- LeadsAll" if d == "CumulativeBufpos" else "<- NoLead"},
                         invariants=["P_DataCapturedExactly"])
         res = run_tlc(wrapper, cfg, workers=2, timeout=600, lib=LIB)
         ck.add_tlc(res, "counterexample search: %s alone against P_DataCapturedExactly" % d)
@@ -1067,13 +1077,13 @@ def replay(path):
     bad = False
     if "content" in case:
         R.self_check()
-        content, B, cp = case["content"], case["bufsiz"], case.get("cutpos", 0)
+        content, B, cp, lead = case["content"], case["bufsiz"], case.get("cutpos", 0), case.get("lead", [])
         if case.get("level") == "document":
-            pages = R.inline_pages(R.inline_doc([(content, cp)]), B)
+            pages = R.inline_pages(R.inline_doc([(content, cp, lead)]), B)
             print("LTImage items / glyphs:", pages)
             bad = True
         else:
-            err, out = R.scan_content(R.split_content(content, cp), B)
+            err, out = R.scan_content(R.lead_streams(lead) + R.split_content(content, cp), B)
             print("real parser:", err, out)
             data = case.get("data")
             view = real_view(err, out)
